@@ -325,6 +325,31 @@ impl Space for CompareRelative {
                 }
             }
         }
+        // a calendar unit against days plus a sub-second field worth a day and more (the fields are not balanced)
+        if i as usize % self.durs.len() == 0 {
+            let day_ns = 86_400_000_000_000i64;
+            let shapes: [[i64; 10]; 10] = [
+                [0, 1, 0, 0, 0, 0, 0, 0, 0, 0],
+                [1, 0, 0, 0, 0, 0, 0, 0, 0, 0],
+                [0, 0, 0, 30, 0, 0, 0, 0, 0, day_ns + 3_600_000_000_000],
+                [0, 0, 0, 27, 0, 0, 0, 0, 0, day_ns],
+                [0, 0, 0, 365, 0, 0, 0, 0, 108_000_000_000, 0],
+                [0, 0, 0, 364, 0, 0, 0, 0, 86_400_000_000, 0],
+                [0, 0, 4, 0, 0, 0, 0, 86_400_000 * 3, 0, 0],
+                [0, -1, 0, 0, 0, 0, 0, 0, 0, 0],
+                [0, 0, 0, -30, 0, 0, 0, 0, 0, -(day_ns + 3_600_000_000_000)],
+                [0, 0, 0, -27, 0, 0, 0, 0, -86_400_000_000, 0],
+            ];
+            for fa in &shapes {
+                for fb in &shapes {
+                    let (Ok(a), Ok(b)) = (dur10(to_fields(fa)), dur10(to_fields(fb))) else { continue };
+                    let model = r5r::compare_relative(&to_fields(fa), &to_fields(fb), Some(rel));
+                    let attrs = || vec![("a", format!("{fa:?}")), ("b", format!("{fb:?}")), ("relative_to", format!("{y}-{m}-{d}")), ("shapes", "unbalanced sub-second fields".to_string()), ("model", format!("{model:?}"))];
+                    let got = call(|| a.compare_with_provider(&b, Some(RelativeTo::PlainDate(pdate.clone())), &ErrProvider));
+                    out.lockstep("Duration::compare(relativeTo plain date)", &model.map_err(err_of), &got, |a, b| a == b, attrs);
+                }
+            }
+        }
     }
 }
 
